@@ -385,7 +385,25 @@ func rulePaxRecordsMapPresent(rule string) func(*Ctx) {
 			for _, later := range list[i+1:] {
 				is, ok := later.(*ast.IfStmt)
 				if ok && is.Else == nil && is.Init == nil {
-					if be, ok := ast.Unparen(is.Cond).(*ast.BinaryExpr); ok && be.Op == token.EQL && objOfIdent(info, be.X) == v && isNilIdent(info, be.Y) {
+					isEmptyTest := func(e ast.Expr) bool {
+						be, ok := ast.Unparen(e).(*ast.BinaryExpr)
+						if !ok || be.Op != token.EQL {
+							return false
+						}
+						if objOfIdent(info, be.X) == v && isNilIdent(info, be.Y) {
+							return true
+						}
+						// len(v) == 0 holds for a nil map too
+						if call, ok := ast.Unparen(be.X).(*ast.CallExpr); ok && len(call.Args) == 1 && objOfIdent(info, call.Args[0]) == v {
+							if bi, ok := calleeObj(info, call).(*types.Builtin); ok && bi.Name() == "len" {
+								if tv := info.Types[be.Y]; tv.Value != nil && tv.Value.String() == "0" {
+									return true
+								}
+							}
+						}
+						return false
+					}
+					if isEmptyTest(is.Cond) {
 						for _, s := range is.Body.List {
 							if as, ok := s.(*ast.AssignStmt); ok && len(as.Lhs) == 1 && len(as.Rhs) == 1 && objOfIdent(info, as.Lhs[0]) == v && !isNilIdent(info, as.Rhs[0]) {
 								guarded = true
@@ -530,24 +548,39 @@ func ruleOnlyTheMutatorsWriteRows(rule string) func(*Ctx) {
 				continue
 			}
 			isMut := s.mutators[name] && strings.HasPrefix(f.Name, "(*MetadataPersister).")
-			// an unexported helper is fine when every caller is a mutator (or such a helper)
-			if !isMut && !f.Decl.Name.IsExported() {
-				all, any := true, false
+			// an unexported helper is fine when every caller is a mutator (or such a helper, to any depth)
+			var onlyFromMutators func(g *FuncInfo, depth int) bool
+			onlyFromMutators = func(g *FuncInfo, depth int) bool {
+				if depth > 4 || g.Decl == nil || g.Decl.Name.IsExported() {
+					return false
+				}
+				any := false
 				for _, h := range c.Funcs {
 					for _, cs := range h.calls {
-						if cs.Target == f {
-							any = true
-							top := h
-							for top.Outer != nil {
-								top = top.Outer
-							}
-							if !(top.Decl != nil && s.mutators[top.Decl.Name.Name] && strings.HasPrefix(top.Name, "(*MetadataPersister).")) {
-								all = false
-							}
+						if cs.Target != g {
+							continue
 						}
+						any = true
+						top := h
+						for top.Outer != nil {
+							top = top.Outer
+						}
+						if top == g {
+							continue // recursion
+						}
+						if top.Decl != nil && s.mutators[top.Decl.Name.Name] && strings.HasPrefix(top.Name, "(*MetadataPersister).") {
+							continue
+						}
+						if top.RelPkg() == "pkg/persisters" && onlyFromMutators(top, depth+1) {
+							continue
+						}
+						return false
 					}
 				}
-				isMut = any && all
+				return any
+			}
+			if !isMut {
+				isMut = onlyFromMutators(f, 0)
 			}
 			c.verdictIf(isMut, rule, f, "row writes", direct, "rows are written by a row-changing method of the index-store interface",
 				f.Name+" writes index rows but is not one of the row-changing methods ("+s.mutatorNames()+"): whatever opens or queries the index - including a read-only filesystem, `serve http`, `serve ftp --read-only` - now changes it")
@@ -685,32 +718,65 @@ func ruleSignatureBytesReachOnlyThePrimitive(rule string) func(*Ctx) {
 					top = top.Outer
 				}
 				bad := token.NoPos
-				// every use of v (in the declaring function and its literals) is a direct argument of a primitive's call
-				var parents []ast.Node
-				ast.Inspect(top.Body(), func(m ast.Node) bool {
-					if m == nil {
-						parents = parents[:len(parents)-1]
-						return true
-					}
-					if id, ok := m.(*ast.Ident); ok && info.Uses[id] == v {
-						okUse := false
-						if len(parents) > 0 {
-							if pc, ok := parents[len(parents)-1].(*ast.CallExpr); ok && pc.Fun != ast.Expr(id) {
-								if o := calleeObj(info, pc); o != nil && o.Pkg() != nil {
-									pp := o.Pkg().Path()
-									if pp == "aead.dev/minisign" || strings.HasSuffix(pp, "openpgp/packet") || (pp == "bytes" && (o.Name() == "NewBuffer" || o.Name() == "NewReader")) {
-										okUse = true
+				// every use of v (in the declaring function and its literals) is a direct argument of a primitive's call; plain
+				// copies (`x := v`, `x = v`, `return v` of a helper that only decodes) hand the obligation on to the copy
+				tracked := map[types.Object]bool{v: true}
+				for round := 0; round < 4; round++ {
+					grew := false
+					bad = token.NoPos
+					var parents []ast.Node
+					ast.Inspect(top.Body(), func(m ast.Node) bool {
+						if m == nil {
+							parents = parents[:len(parents)-1]
+							return true
+						}
+						if id, ok := m.(*ast.Ident); ok && info.Uses[id] != nil && tracked[info.Uses[id]] {
+							okUse := false
+							if len(parents) > 0 {
+								switch pc := parents[len(parents)-1].(type) {
+								case *ast.CallExpr:
+									if pc.Fun != ast.Expr(id) {
+										if o := calleeObj(info, pc); o != nil && o.Pkg() != nil {
+											pp := o.Pkg().Path()
+											if pp == "aead.dev/minisign" || strings.HasSuffix(pp, "openpgp/packet") || (pp == "bytes" && (o.Name() == "NewBuffer" || o.Name() == "NewReader")) {
+												okUse = true
+											}
+										}
 									}
+								case *ast.AssignStmt:
+									for i, r := range pc.Rhs {
+										if r == ast.Expr(id) && len(pc.Lhs) == len(pc.Rhs) {
+											if bl, ok := pc.Lhs[i].(*ast.Ident); ok && bl.Name == "_" {
+												okUse = true
+											} else if lo := objOfIdentDefOrUse(info, pc.Lhs[i]); lo != nil {
+												if !tracked[lo] {
+													tracked[lo] = true
+													grew = true
+												}
+												okUse = true
+											}
+										}
+									}
+									for _, l := range pc.Lhs {
+										if l == ast.Expr(id) {
+											okUse = true // being assigned to is not a look into it
+										}
+									}
+								case *ast.ReturnStmt:
+									okUse = true
 								}
 							}
+							if !okUse && bad == token.NoPos {
+								bad = id.Pos()
+							}
 						}
-						if !okUse && bad == token.NoPos {
-							bad = id.Pos()
-						}
+						parents = append(parents, m)
+						return true
+					})
+					if !grew {
+						break
 					}
-					parents = append(parents, m)
-					return true
-				})
+				}
 				at := as.Pos()
 				if bad != token.NoPos {
 					at = bad
